@@ -43,3 +43,36 @@ func TestRegressMissingEndHeightThenSecondCrash(t *testing.T) {
 		}
 	}
 }
+
+// TestRegressInitialHeightFirstBlockCrash replays finding C05-initial-height-first-block-crash: genesis initial
+// height > 1, crash after the first block reached the block store but before the state was saved: every crash
+// point inside the commit pipeline of the first block must be recoverable.
+func TestRegressInitialHeightFirstBlockCrash(t *testing.T) {
+	h := pnode.History{Heights: 2, Initial: 7, GenTime: time.Now().Add(-time.Hour).UTC(), PowerSelf: 10}
+	labels, err := pnode.OpLabels(h)
+	if err != nil {
+		t.Fatalf("VERIF-INFRA: %v", err)
+	}
+	// from the first block-store write to the state save that ends the first block's commit
+	first, last := -1, -1
+	for i, l := range labels {
+		if strings.HasPrefix(l, "blockdb.") && first < 0 {
+			first = i
+		}
+		if l == "app.CommitDone" && last < 0 {
+			last = i + 8
+		}
+	}
+	if first < 0 || last < 0 {
+		t.Fatalf("VERIF-INFRA: commit pipeline not found")
+	}
+	for k := first; k <= last && k < len(labels); k++ {
+		res, err := pnode.RunCrash(h, k, 0, nil)
+		if err != nil {
+			t.Fatalf("VERIF-INFRA: %v", err)
+		}
+		if v, bad := res.Violations["C05"]; bad {
+			t.Fatalf("C05 violated (crash at op %d %s): %s", k, labels[k], v)
+		}
+	}
+}
